@@ -161,7 +161,7 @@ class World:
                     return [(None, st)]
                 st.note(f"session method {name}")
                 return [(Unknown(name), st)]
-            if recv.cls.startswith("ext:") and ("ogger" in recv.cls or "logrus" in recv.cls):
+            if recv.cls.startswith("ext:") and ("ogger" in recv.cls or "logrus" in recv.cls) and name in ("debug", "info", "warning", "warn", "error", "exception", "critical", "log", "bind"):
                 return [(None, st)]
             if recv.cls == "vstat":
                 return None
